@@ -903,6 +903,11 @@ func checkSetAlg(c *Ctx, ct *types.Named, fn *ssa.Function, gc *GCNF, name strin
 		case first.Op == "do" && strings.HasSuffix(first.Leaf, ").Next") && itType != nil:
 			op, ok := ownIteratorTermAt(gc, first.Args[0], g.From)
 			if !ok {
+				// the iterator of the operand's inner container, which the set's own iterator wraps
+				if op2, el2, ok2 := innerIteratorDriver(c, fn, ct, itType, first); ok2 {
+					operand, elem, stepRes = op2, el2, nodeL("res", "", first)
+					break
+				}
 				ld.bad = append(ld.bad, "the loop does not advance an operand's own iterator")
 				continue
 			}
@@ -1208,4 +1213,110 @@ func checkSetAlg(c *Ctx, ct *types.Named, fn *ssa.Function, gc *GCNF, name strin
 // varargElemAll: like varargElem but searching all effects (used for pure calls that appear only in guards).
 func varargElemAll(effects []*Term, slice *Term) *Term {
 	return varargElem(effects, len(effects), slice)
+}
+
+// innerIteratorDriver: the loop steps `X.Next()` where X = <operand>.<F>.Iterator() is the iterator of the operand's inner
+// container — the very iterator the set's own iterator wraps: the own Iterator() stores <receiver>.<F>.Iterator() in a field G,
+// the own Next() returns G.Next()'s result, and the own Value() is a term over G alone. The current element is then that
+// term with G replaced by X.
+func innerIteratorDriver(c *Ctx, fn *ssa.Function, ct, itType *types.Named, step *Term) (operand, elem string, ok bool) {
+	p := c.p
+	IT := step.Args[0]
+	if !(IT.Op == "call" && strings.HasSuffix(IT.Leaf, ").Iterator") && len(IT.Args) == 2) {
+		return "", "", false
+	}
+	recv := IT.Args[1]
+	if !(recv.Op == "load" && len(recv.Args) == 1 && recv.Args[0].Op == "fa" && len(recv.Args[0].Args) == 1 && recv.Args[0].Args[0].Op == "p") {
+		return "", "", false
+	}
+	F, operand := recv.Args[0].Leaf, recv.Args[0].Args[0].Leaf
+	// the own Iterator() wraps <receiver>.<F>.Iterator() (same callee)
+	itf := methodsOf(p, ct)["Iterator"]
+	if itf == nil || itType == nil {
+		return "", "", false
+	}
+	want := "(" + IT.Op + ":" + IT.Leaf + " @ (load (fa:" + F + " p:0)))"
+	wraps := false
+	igc := c.GC(itf)
+	if igc.Undecided != "" {
+		return "", "", false
+	}
+	wrapField := ""
+	for _, g := range igc.GCs {
+		if g.Exit.any(func(t *Term) bool { return noEpoch(t) == want }) {
+			wraps = true
+		}
+		for _, ef := range g.Effects {
+			if isStore(ef) && ef.Args[0].Op == "fa" && len(ef.Args[0].Args) == 1 && ef.Args[0].Args[0].Op == "new" && noEpoch(ef.Args[1]) == want {
+				wraps, wrapField = true, ef.Args[0].Leaf
+			}
+		}
+	}
+	if !wraps {
+		return "", "", false
+	}
+	// the own Next() hands back the wrapped iterator's Next(): find G
+	next := methodsOf(p, itType)["Next"]
+	if next == nil {
+		return "", "", false
+	}
+	ngc := c.GC(next)
+	if ngc.Undecided != "" || len(ngc.GCs) == 0 {
+		return "", "", false
+	}
+	G := ""
+	for _, g := range ngc.GCs {
+		if g.Exit.Op != "return" || len(g.Exit.Args) != 1 {
+			return "", "", false
+		}
+		r := g.Exit.Args[0]
+		if !(r.Op == "res" && len(r.Args) == 1 && r.Args[0].Op == "do" && r.Args[0].Leaf == step.Leaf && len(r.Args[0].Args) == 1) {
+			return "", "", false
+		}
+		w := r.Args[0].Args[0]
+		if !(w.Op == "load" && len(w.Args) == 1 && w.Args[0].Op == "fa" && len(w.Args[0].Args) == 1 && w.Args[0].Args[0].String() == "p:0") {
+			return "", "", false
+		}
+		if G != "" && G != w.Args[0].Leaf {
+			return "", "", false
+		}
+		G = w.Args[0].Leaf
+	}
+	if wrapField != "" && wrapField != G {
+		return "", "", false
+	}
+	// the own Value() over a stand-in for the own iterator, G replaced by X
+	own := leaf("own", "")
+	m := methodsOf(p, itType)["Value"]
+	if m == nil {
+		return "", "", false
+	}
+	st := &pstate{b: &gcBuilder{p: p, e: c.E(), fn: fn, cutIdx: map[string]int{}, out: &GCNF{Fn: fn}}, env: map[ssa.Value]*Term{}, onPath: map[string]bool{}, inl: true}
+	vt, okv := st.inline(m, []*Term{own})
+	if !okv {
+		return "", "", false
+	}
+	var sub func(t *Term) *Term
+	clean := true
+	sub = func(t *Term) *Term {
+		if t.Op == "load" && len(t.Args) == 1 && t.Args[0].Op == "fa" && t.Args[0].Leaf == G && len(t.Args[0].Args) == 1 && t.Args[0].Args[0].Op == "own" {
+			return IT
+		}
+		if t.Op == "own" {
+			clean = false
+		}
+		if len(t.Args) == 0 {
+			return t
+		}
+		n := &Term{Op: t.Op, Leaf: t.Leaf, Args: make([]*Term, len(t.Args))}
+		for i, a := range t.Args {
+			n.Args[i] = sub(a)
+		}
+		return n
+	}
+	et := sub(vt)
+	if !clean {
+		return "", "", false
+	}
+	return operand, noEpoch(et), true
 }
